@@ -48,6 +48,8 @@ def run(run, ix, tier):
     check_def_mpf_constant(run, ix)
     pairs = check_pairing(run, ix)
     check_context_wiring(run, ix, pairs)
+    check_e_terms(run, ix)
+    check_more_term_counts(run, ix)
 
 
 def check_def_mpf_constant(run, ix):
@@ -332,3 +334,123 @@ def check_context_wiring(run, ix, pairs):
     else:
         run.fail(Finding('K-R3', c.file, c.qualname, norm(rets[0]) if rets else 'def _get_mpi_',
                          why, line=c.lineno))
+
+
+def check_e_terms(run, ix):
+    """K-R4.  e_fixed sums 1/1! + ... + 1/N! exactly (binary splitting) and N is a closed-form
+    expression of the precision.  The neglected tail is below 2**-prec iff (N+1)! > 2**prec.  The
+    expression is evaluated from its syntax tree for every precision in 1..4000 and on a geometric
+    grid up to 10**6 and log2((N+1)!) >= prec is checked with lgamma.  (The other series of this file
+    choose their length inside loops that test the term size; this is the one closed-form count.)"""
+    import math
+    from ..formula import Evaluator
+    LIBELE = 'mpmath/libmp/libelefun.py'
+    run.rule('K-R4', floor=4, desc='closed-form term counts of the series for e, pi, acot[h] cover the precision')
+    f = ix.func(LIBELE, 'e_fixed')
+    pname = f.params[0]
+    ndef = None
+    call = None
+    for x in _walk_own(f.node):
+        if isinstance(x, ast.Call) and norm(x.func) == 'bspe' and len(x.args) == 2:
+            call = x
+    if call is None or norm(call.args[0]) != '0' or not isinstance(call.args[1], ast.Name):
+        raise AnalysisError('e_fixed: bspe(0, N) not found')
+    nname = call.args[1].id
+    for x in _walk_own(f.node):
+        if isinstance(x, ast.Assign) and norm(x.targets[0]) == nname:
+            ndef = x
+    if ndef is None:
+        raise AnalysisError('e_fixed: term count %s is not a closed form' % nname)
+    ev = Evaluator()
+    grid = list(range(2, 4001)) + [int(4000 * 1.07 ** k) for k in range(1, 82)]
+    worst = None
+    for p_ in grid:
+        n = ev.ev(ndef.value, {pname: p_})
+        have = math.lgamma(n + 2) / math.log(2)
+        if have < p_ and worst is None:
+            worst = (p_, n, have)
+    if worst is None:
+        run.ok('K-R4', 'e_fixed: (N+1)! > 2**prec for N = %s at all %d precisions tried (2..%d)'
+               % (norm(ndef.value, 50), len(grid), grid[-1]))
+    else:
+        p_, n, have = worst
+        run.fail(Finding('K-R4', LIBELE, 'e_fixed', norm(ndef),
+                         'at prec = %d the series is cut after N = %d terms, where the tail 1/(N+1)! is about '
+                         '2**-%d: only %d of the %d requested bits of e have converged (the shortfall grows with '
+                         'the precision)' % (p_, n, int(have), int(have), p_), line=ndef.lineno))
+    # the sum is used as  (p + q) << prec // q : 1 + p/q
+    rets = [norm(r.value) for r in _walk_own(f.node) if isinstance(r, ast.Return)]
+    if rets == ['(p + q << prec) // q'.replace('prec', pname)]:
+        run.ok('K-R4', 'e = 1 + p/q, floored at 2**-prec')
+    else:
+        run.fail(Finding('K-R4', LIBELE, 'e_fixed', 'return ' + (rets[0] if rets else '?'),
+                         'the fixed-point value is not floor((p + q) * 2**prec / q)', line=f.lineno))
+
+
+def _count_def(f, helper):
+    """(name node of the count, its defining assignment) for `helper(.., N, ..)` in f"""
+    for x in _walk_own(f.node):
+        if isinstance(x, ast.Call) and norm(x.func) == helper:
+            for a in x.args:
+                if isinstance(a, ast.Name):
+                    for y in _walk_own(f.node):
+                        if isinstance(y, ast.Assign) and norm(y.targets[0]) == a.id and \
+                                not isinstance(y.value, ast.Name):
+                            return a.id, y
+    return None, None
+
+
+def check_more_term_counts(run, ix):
+    """K-R4 for the other two closed-form counts of the constant kernels:
+    pi_fixed  -- Chudnovsky series, each term contributes log2(53360**3) = 47.11 bits;
+    acot_fixed(a) -- sum of (+-1)**k / ((2k+1) a**(2k+1)): N terms leave a tail below a**-(2N+1),
+    for every integer a the Machin-type formulas of this file use."""
+    import math
+    from ..formula import Evaluator
+    LIBELE = 'mpmath/libmp/libelefun.py'
+    ev = Evaluator()
+    grid = list(range(2, 3001)) + [int(3000 * 1.07 ** k) for k in range(1, 90)]
+    # ---- pi
+    f = ix.func(LIBELE, 'pi_fixed')
+    nname, ndef = _count_def(f, 'bs_chudnovsky')
+    if ndef is None:
+        raise AnalysisError('pi_fixed: closed-form term count not found')
+    per_term = 3 * math.log(53360, 2)
+    worst = None
+    for p_ in grid:
+        n = ev.ev(ndef.value, {f.params[0]: p_})
+        if n * per_term < p_ and worst is None:
+            worst = (p_, n)
+    if worst is None:
+        run.ok('K-R4', 'pi_fixed: N = %s terms x 47.11 bits >= prec at all %d precisions tried' % (norm(ndef.value, 50), len(grid)))
+    else:
+        run.fail(Finding('K-R4', LIBELE, 'pi_fixed', norm(ndef), 'at prec = %d only N = %d Chudnovsky terms are '
+                         'summed: %d bits of pi have converged' % (worst[0], worst[1], int(worst[1] * per_term)),
+                         line=ndef.lineno))
+    # ---- acot / acoth with the arguments used in this file
+    g = ix.func(LIBELE, 'acot_fixed')
+    nname, ndef = _count_def(g, 'bsp_acot')
+    if ndef is None:
+        raise AnalysisError('acot_fixed: closed-form term count not found')
+    args = set()
+    m = ix.module(LIBELE)
+    for x in ast.walk(m.tree):
+        if isinstance(x, ast.Call) and norm(x.func) == 'machin' and x.args and isinstance(x.args[0], ast.List):
+            for t in x.args[0].elts:
+                if isinstance(t, ast.Tuple) and len(t.elts) == 2 and isinstance(t.elts[1], ast.Constant):
+                    args.add(t.elts[1].value)
+    if len(args) < 5:
+        raise AnalysisError('Machin-type formulas not found')
+    worst = None
+    for a in sorted(args):
+        for p_ in grid:
+            n = ev.ev(ndef.value, {g.params[0]: a, g.params[1]: p_})
+            if (2 * n + 1) * math.log(a, 2) < p_ and worst is None:
+                worst = (a, p_, n)
+    if worst is None:
+        run.ok('K-R4', 'acot_fixed: a**(2N+1) > 2**prec for N = %s, a in %s' % (norm(ndef.value, 40), sorted(args)))
+    else:
+        a, p_, n = worst
+        run.fail(Finding('K-R4', LIBELE, 'acot_fixed', norm(ndef), 'for a = %d at prec = %d the series is cut after '
+                         'N = %d terms, where the tail is about 2**-%d' % (a, p_, n, int((2 * n + 1) * math.log(a, 2))),
+                         line=ndef.lineno))
